@@ -354,7 +354,7 @@ class Oracle(stateful.Stateful):
         # Client Tuner IDs
         self.tuner_ids = set()
 
-        self.seed = seed or random.randint(1, 10000)
+        self.seed = seed if seed is not None else random.randint(1, 10000)
         self._seed_state = self.seed
         # Hashes of values in the trials, which only hashes the active values.
         self._tried_so_far = set()
